@@ -802,12 +802,12 @@ package gorm
 //@   let select0 = db.Statement.Clauses["SELECT"]
 //@   ensures ordering-restored: hadOrder && !grouped ==> has(result.Statement.Clauses, "ORDER BY") && result.Statement.Clauses["ORDER BY"] == order0
 //@   ensures selection-restored: hadSelect ==> has(result.Statement.Clauses, "SELECT") && result.Statement.Clauses["SELECT"] == select0
-//@ # Count edits clauses only in the statement of the instance it made (tx): on a reusable handle that is a clone, so
-//@ # the handle keeps its ORDER BY and SELECT.
+//@ # Count removes clauses only from the statement of the instance it made (tx): on a reusable handle that is a clone,
+//@ # so the handle keeps its ORDER BY and SELECT. (The deferred closures that put them back name tx themselves.)
 //@ site count-edits-its-own-statement
 //@   match mapdelete Statement.Clauses | mapwrite Statement.Clauses
-//@   in gorm.(*DB).Count gorm.(*DB).Count$*
-//@   min-sites 4
+//@   in gorm.(*DB).Count
+//@   min-sites 2
 //@   assert never-the-statement-of-a-reusable-handle: db.clone > 0 ==> recv != db.Statement [C06]
 
 //@ # ---------- C19: ToSQL renders the receiver's chain in a dry-run session ----------
